@@ -350,3 +350,8 @@ package forwarder
 //@ modifies *, netDialed(), rdOut()
 //@ ensures old(d.rd) == nil ==> netDialed() == address
 //@ ensures old(d.rd) != nil ==> netDialed() == rdOut()
+
+// The package initialiser establishes the global invariants of this file.
+//@ func init
+//@ property C04 C12
+//@ modifies **
